@@ -1,10 +1,144 @@
-import GoatSpec.MarkSpec
-import GoatSpec.Splice
-/-! # C09 — property theorems (instrumenter family); see DESIGN.md §6 -/
+import GoatSpec.Proofs.Walk
+/-! # C09 — tracking points appear only where a change justifies them, once.
+
+The theorems are about the bookkeeping fold of `increment.go` (`runEvents`) for **every** event
+list and every abstract file, by induction; the abstract file and the fold are tied to the code
+by the `marks-stdlib` / `marks-gen` correspondence streams. -/
 namespace GoatSpec.C09
 open GoatSpec
 
-/-- placeholder obligation replaced below by the real theorems of this property -/
-theorem blockHeight_eq : blockHeight = 4 := rfl
+/-- **no two tracking blocks adjacent, none misplaced** — for every event list, whenever the
+    fold terminates normally: the multi-line positions are pairwise distinct, none is on a
+    comment-like or blank line (so the code line they precede separates two blocks), each lies
+    strictly inside a function body, and `count` equals the number of recorded positions. -/
+theorem points_distinct_and_placed (env : Env) (evs : List Ev) (st : MState)
+    (h : runEvents env evs = .ok st) :
+    st.multi.Nodup ∧ (∀ l ∈ st.multi, env.isComment l = .ok false)
+      ∧ (∀ l ∈ st.multi, searchScopes env.funcs l ≠ 0)
+      ∧ st.count = st.multi.length + st.singles.length :=
+  let i := runEvents_inv env evs st h
+  ⟨i.nodup, i.notComment, i.inFunc, i.count⟩
+
+/-- events that pass no changed-line test never change the state -/
+theorem step_unchanged (env : Env) (hch : ∀ l b, env.isChanged l = .ok b → b = false)
+    (st st' : MState) (ev : Ev) (hf : ev.isForce = false) (h : stepEv env st ev = .ok st') : st' = st := by
+  cases ev with
+  | force l => simp [Ev.isForce] at hf
+  | check l =>
+    simp only [stepEv] at h
+    split at h
+    · cases h
+    · cases h; rfl
+    · next hc => exact absurd (hch l true hc) (by simp)
+  | single l c =>
+    simp only [stepEv] at h
+    split at h
+    · cases h
+    · cases h; rfl
+    · next hc => exact absurd (hch l true hc) (by simp)
+
+theorem fold_unchanged (env : Env) (hch : ∀ l b, env.isChanged l = .ok b → b = false)
+    (evs : List Ev) (hf : ∀ ev ∈ evs, ev.isForce = false) :
+    ∀ st st', evs.foldlM (stepEv env) st = .ok st' → st' = st := by
+  induction evs with
+  | nil => intro st st' h; simp [pure, Except.pure] at h; exact h.symm
+  | cons ev rest ih =>
+    intro st st' h
+    obtain ⟨b', h1, h2⟩ := (foldlM_ok_cons _ _ _ _ _).mp h
+    have e1 := step_unchanged env hch st b' ev (hf ev (by simp)) h1
+    have e2 := ih (fun e he => hf e (by simp [he])) b' st' h2
+    rw [e2, e1]
+
+/-- with the constant-false changed predicate a declaration yields no `force` event -/
+theorem declEvents_noForce (d : Decl) : ∀ ev ∈ declEvents (fun _ => false) d, ev.isForce = false := by
+  intro ev h
+  cases d with
+  | funcDecl body =>
+    cases body with
+    | none => simp [declEvents] at h
+    | some b =>
+      obtain ⟨lb, rb, first, stmts⟩ := b
+      cases first with
+      | none => simp [declEvents] at h
+      | some p =>
+        simp only [declEvents, ctlL_false, List.append_nil] at h
+        rcases List.mem_append.mp h with h | h
+        · split at h
+          · simp at h; subst h; rfl
+          · cases h
+        · exact evL_noForce stmts ev h
+  | genDecl vs =>
+    simp only [declEvents] at h
+    rcases List.mem_append.mp h with h | h
+    · obtain ⟨e, _, he⟩ := List.mem_flatMap.mp h
+      cases e with
+      | funcLit pl el lb rb first body =>
+        simp only [globalLitEvents] at he
+        split at he
+        · cases he
+        · split at he
+          · simp at he; subst he; rfl
+          · exact evL_noForce body ev he
+      | call fn args => simp [globalLitEvents] at he
+      | composite typ elts => simp [globalLitEvents] at he
+      | keyValue k v => simp [globalLitEvents] at he
+      | unary x => simp [globalLitEvents] at he
+      | structType fs => simp [globalLitEvents] at he
+      | other cs => simp [globalLitEvents] at he
+    · obtain ⟨e, _, he⟩ := List.mem_flatMap.mp h
+      cases e with
+      | funcLit pl el lb rb first body => simp [globalLitCtl, ctlL_false] at he
+      | call fn args => simp [globalLitCtl] at he
+      | composite typ elts => simp [globalLitCtl] at he
+      | keyValue k v => simp [globalLitCtl] at he
+      | unary x => simp [globalLitCtl] at he
+      | structType fs => simp [globalLitCtl] at he
+      | other cs => simp [globalLitCtl] at he
+
+/-- **files without a changed line receive no tracking point** — for every abstract file: when
+    no line is reported changed, the fold ends in the initial state (count 0, no positions), so
+    `doInsert` returns the original bytes. -/
+theorem no_change_no_points (env : Env) (f : File)
+    (hch : ∀ l b, env.isChanged l = .ok b → b = false) (st : MState)
+    (h : runEvents env (fileEvents (fun _ => false) f) = .ok st) :
+    st.multi = [] ∧ st.singles = [] ∧ st.count = 0 := by
+  have hf : ∀ ev ∈ fileEvents (fun _ => false) f, ev.isForce = false := by
+    intro ev hev
+    obtain ⟨d, _, hd⟩ := List.mem_flatMap.mp hev
+    exact declEvents_noForce d ev hd
+  have := fold_unchanged env hch _ hf {} st h
+  subst this
+  exact ⟨rfl, rfl, rfl⟩
+
+/-- at **func granularity** every call of `markInsert` is made with the line after the opening
+    brace of a function scope that strictly contains the event line; hence every position is
+    the first non-comment line of such a function body (its first statement) -/
+theorem func_positions (env : Env) (hg : env.gran = .func) (st st' : MState) (line : Nat)
+    (hinv : Inv env st) (h : forceMark env st line = .ok st') :
+    ∀ l ∈ st'.multi, l ∈ st.multi ∨
+      ∃ s e, env.funcs[searchScopes env.funcs line]? = some (s, e) ∧ searchScopes env.funcs line ≠ 0 ∧
+        skipComments env (env.comments.size + 1) (s + 1) = .ok l := by
+  unfold forceMark at h
+  rw [hg] at h
+  dsimp only at h
+  split at h
+  · cases h; intro l hl; exact Or.inl hl
+  · next hne =>
+    split at h
+    · next s e hs =>
+      have := (markInsert_spec env st st' (s + 1) hinv h).2.2.2.2.2
+      intro l hl
+      rcases this l hl with h1 | h1
+      · exact Or.inl h1
+      · exact Or.inr ⟨s, e, hs, by simpa using hne, h1⟩
+    · cases h
+
+def exampleEnv : Env :=
+  { gran := .line, n := 6, changed := #[false, false, false, true, false, true, false],
+    comments := #[false, false, false, false, false, false, false], funcs := [(1, 7), (2, 6)], trees := [] }
+
+/-- non-vacuity: the fold on a concrete two-event input ends in a state with one position -/
+example : (runEvents exampleEnv [.check 3, .check 4]).toOption.map (·.multi) = some [3] := by
+  decide
 
 end GoatSpec.C09
